@@ -545,7 +545,8 @@ class LBFGSB:
             callback: Optional[Callable[[np.ndarray], None]] = None,  # type: ignore
         ):
             self.startTime = time.perf_counter()
-            self.time_trace = np.zeros((maxiter,))
+            # scipy performs (and reports) one iteration even for maxiter=0
+            self.time_trace = np.zeros((max(maxiter, 1),))
             self.iter = 0
             self._callback = callback
 
